@@ -21,201 +21,194 @@ FRAGS = "fragmentation::Fragments"
 
 
 def run(ctx):
+    """All three rules are decided on the formulas extracted from the two functions (ea/symx.py, effects mode): the
+    results do not depend on the names of locals, on statement order or on how the arithmetic is spelled."""
+    from .. import symx as S
     prog = ctx.prog()
     fr = prog.one("protocols::ipv4::fragmentation::fragment")
-    g = cfg(fr)
+    ff = prog.method("Fragmentation", "fragment")
+    newf = prog.method("Fragmentation", "new")
+    ctx.require(fr.argc == 3 and ff.argc == 3, "fragmentation: signatures changed (%d, %d parameters)" % (fr.argc, ff.argc))
+    try:
+        top, _ = S.extract(prog, fr, effects=True)
+        rec, _ = S.extract(prog, ff, effects=True)
+        newt, _ = S.extract(prog, newf, effects=True)
+    except S.Unsupported as e:
+        ctx.require(False, "fragmentation.rs can no longer be reduced to a formula (%s): no verdict" % e)
+    H, B, M = S.params_of(fr)
+    TL = lambda h: S.lin(("field", h, "total_length"))
+
+    def fits_atom(c, tl, mtu):
+        """truth value of comparison c as a function of FITS = (total_length <= mtu): True / False / None (not a
+        function of it, e.g. a strict comparison)."""
+        if c[0] != "bin" or c[1] not in ("Le", "Lt", "Ge", "Gt"):
+            return "other"
+        a, b = S.lin(c[2]), S.lin(c[3])
+        if (a, b) == (tl, mtu):
+            return {"Le": True, "Gt": False}.get(c[1])
+        if (a, b) == (mtu, tl):
+            return {"Ge": True, "Lt": False}.get(c[1])
+        return "other"
+
     # ---------------------------------------------------------------- F-DECIDE
     probs = []
-    dont = K.aggregates(fr, FRAGS, "DontFragment")
-    disc = K.aggregates(fr, FRAGS, "Discard")
-    frag = K.aggregates(fr, FRAGS, "Fragmented")
-    if len(dont) != 1 or len(disc) != 1 or len(frag) != 1:
-        probs.append("expected one construction each of DontFragment, Discard, Fragmented (found %d, %d, %d)" % (len(dont), len(disc), len(frag)))
-    else:
-        fit = None
-        for s in range(len(fr.blocks)):
-            if fr.is_cleanup(s) or fr.term(s)[0] != "switch":
-                continue
-            info = K.compare_info(fr, s)
-            if info:
-                ta, tb = dep.expr_tree(fr, info["a"]), dep.expr_tree(fr, info["b"])
-                sa, sb = dep.tree_str(ta), dep.tree_str(tb)
-                if {sa, sb} == {"header.total_length", "mtu"}:
-                    for succ in (info["true"], info["false"]):
-                        rel = K.relation_on(info, succ)
-                        if rel and rel[0] == "Le" and dep.tree_str(dep.expr_tree(fr, rel[1])) == "header.total_length":
-                            fit = (s, succ, info["false"] if succ == info["true"] else info["true"])
-        if fit is None:
-            probs.append("no branch establishes exactly header.total_length <= mtu")
-        else:
-            s, fits, nofit = fit
-            if not g.dominates(fits, dont[0][0]) or g.reaches(nofit, dont[0][0]):
-                probs.append("DontFragment is not returned exactly on the `fits` branch")
-            if g.reaches(fits, disc[0][0]) or g.reaches(fits, frag[0][0]):
-                probs.append("a datagram that fits can be discarded or fragmented")
-            # unmodified arguments
-            st = dont[0][1]
-            o = dep.origins(fr, st[2][2][0], at=K.at_stmt(fr, dont[0][0], st), through_calls=False)
-            if not (dep.has_param(o, "header") and dep.has_param(o, "body")) or any(a[0] in ("op", "call", "const") for a in o):
-                probs.append("DontFragment does not carry the unmodified (header, body)")
-            writes = [st2 for bb, blk in enumerate(fr.blocks) if not blk["c"] and g.dominates(bb, dont[0][0]) for st2 in blk["s"] if st2[0] == "a" and st2[1][0] in (1, 2) and st2[1][1]]
-            if writes:
-                probs.append("header/body are modified before DontFragment is returned")
-            df = None
-            for s2 in range(len(fr.blocks)):
-                if fr.is_cleanup(s2) or fr.term(s2)[0] != "switch":
-                    continue
-                c = dep.switch_condition(fr, s2)
-                if c and c["kind"] == "call" and (F.callee_key(c["term"]) or "").endswith("{impl#2}::may_fragment") or (c and c["kind"] == "call" and (F.callee(c["term"]) or {}).get("pretty", "").endswith("ControlFlags::may_fragment")):
-                    if dep.tree_str(dep.expr_tree(fr, F.call_args(c["term"])[0])) == "header.flags":
-                        tr, fa = dep.bool_branches(fr, s2)
-                        df = (s2, tr, fa)
-            if df is None:
-                probs.append("no branch on header.flags.may_fragment()")
-            else:
-                s2, may, maynot = df
-                if not g.dominates(nofit, s2):
-                    probs.append("the DF test is not under the `does not fit` branch")
-                if not g.dominates(maynot, disc[0][0]) or g.reaches(may, disc[0][0]):
-                    probs.append("Discard is not returned exactly when the datagram does not fit and DF is set")
-                if not g.dominates(may, frag[0][0]) or g.reaches(maynot, frag[0][0]):
-                    probs.append("Fragmented is not returned exactly when the datagram does not fit and may be fragmented")
+    leaves = {}
+    strict = []
+    for fits in (True, False):
+        for may in (True, False):
+            def f(x, fits=fits, may=may):
+                r = fits_atom(x, TL(H), S.lin(M))
+                if r is None:
+                    strict.append(S.term_str(x))
+                    return ("bool", fits)
+                if r != "other":
+                    return ("bool", fits if r else not fits)
+                if x[0] == "call" and x[1].rsplit("::", 1)[-1] == "may_fragment" and x[2] == (("field", H, "flags"),):
+                    return ("bool", may)
+                return None
+            leaves[(fits, may)] = S.subst(top, f)
+    if strict:
+        probs.append("the datagram is tested with %s: a datagram of exactly MTU octets is no longer passed through unchanged" % strict[0])
+    DONT = ("agg", "elvis_core::protocols::ipv4::fragmentation::Fragments::DontFragment", (("pair", H, B),))
+    for may in (True, False):
+        l = leaves[(True, may)]
+        if l != DONT:
+            probs.append("a datagram that fits the MTU yields %s instead of DontFragment with the unmodified (header, body)" % S.term_str(l)[:160])
+    l = leaves[(False, False)]
+    if not (l[0] == "variant" and l[2] == "Discard"):
+        probs.append("a datagram that does not fit and has DF set yields %s instead of Discard" % S.term_str(l)[:160])
+    l = leaves[(False, True)]
+    frag_ok = l[0] == "agg" and l[1].endswith("Fragments::Fragmented") and len(l[2]) == 1
+    if not frag_ok:
+        probs.append("a datagram that does not fit and may be fragmented yields %s instead of Fragmented" % S.term_str(l)[:160])
     (ctx.bad if probs else ctx.ok)("F-DECIDE", "F-DECIDE:fragment", fr.span, "; ".join(probs) if probs else
         "(fits) -> DontFragment(unmodified); (does not fit, DF) -> Discard; (does not fit, may fragment) -> Fragmented")
-    # the Fragmented value is the recursion's output for the same header/body/mtu
-    ff = prog.method("Fragmentation", "fragment")
     probs = []
-    calls = K.calls_to(fr, ff.key)
-    if len(calls) != 1:
-        probs.append("fragment() does not run Fragmentation::fragment exactly once")
+    if frag_ok:
+        v = l[2][0]
+        want = ("field", ("upd", ff.key, 0, (("call", newf.key, (M,)), H, B)), "fragments")
+        if v != want:
+            probs.append("Fragmented carries %s, expected the fragments produced by Fragmentation::new(mtu).fragment(header, body)" % S.term_str(v)[:200])
     else:
-        a1 = dep.tree_str(dep.expr_tree(fr, F.call_args(calls[0][1])[1]))
-        a2 = dep.tree_str(dep.expr_tree(fr, F.call_args(calls[0][1])[2]))
-        if (a1, a2) != ("header", "body"):
-            probs.append("Fragmentation::fragment is not given the original (header, body) but (%s, %s)" % (a1, a2))
-        nw = K.calls_to(fr, "fragmentation::{impl#0}::new")
-        if len(nw) != 1 or dep.tree_str(dep.expr_tree(fr, F.call_args(nw[0][1])[0])) != "mtu":
-            probs.append("Fragmentation is not created for the given mtu")
+        probs.append("no Fragmented result to inspect")
+    nm = S.params_of(newf)[0]
+    adt = prog.adt("fragmentation::Fragmentation")
+    fnames = [f["name"] for f in adt["variants"][0]["fields"]]
+    if not (newt[0] == "agg" and len(newt[2]) == len(fnames) and dict(zip(fnames, newt[2])).get("mtu") == nm):
+        probs.append("Fragmentation::new(mtu) does not store the given mtu (%s)" % S.term_str(newt)[:120])
     (ctx.bad if probs else ctx.ok)("F-DECIDE", "F-DECIDE:fragment->Fragmentation", fr.span, "; ".join(probs) if probs else "Fragmented(Fragmentation::new(mtu).fragment(header, body))")
 
-    # ---------------------------------------------------------------- F-MF / F-UNIT
-    fg = cfg(ff)
-    probs = []
-    mf = [(bb, t) for bb, t in K.calls(ff) if (F.callee(t) or {}).get("pretty", "").endswith("ControlFlags::set_is_last_fragment")]
-    cuts = K.calls_to(ff, "message::{impl#0}::cut")
-    pushes = [(bb, t) for bb, t in K.calls(ff) if "vec::Vec" in (F.callee(t) or {}).get("pretty", "") and (F.callee(t) or {}).get("pretty", "").endswith("::push")]
-    rec = K.calls_to(ff, ff.key)
-    hdr_param = 2   # (self, header, body)
-    # every write of MF: only `set_is_last_fragment(false)` (MF <- 1) on a *copy* of the header; the header that is carried
-    # forward (the remainder, and a piece that already fits) keeps the MF it arrived with (RFC 791: MF <- OMF)
-    bad_mf = []
-    for bb, t in mf:
-        t0 = dep.expr_tree(ff, F.call_args(t)[0])
-        on_param = t0[0] == "field" and t0[1][0] == "var" and t0[1][2] == hdr_param
-        if on_param:
-            bad_mf.append("the more-fragments flag of the datagram being carried forward is overwritten at %s (%s): a middle fragment that is fragmented again would mark its last piece as the end of the original datagram" % (
-                F.call_loc(t), "cleared" if F.const_int(F.call_args(t)[1]) == 1 else "set" if F.const_int(F.call_args(t)[1]) == 0 else "written"))
-        elif F.const_int(F.call_args(t)[1]) != 0:
-            bad_mf.append("set_is_last_fragment at %s is not called with the constant `false`" % F.call_loc(t))
-    good_mf = [x for x in mf if not any(F.call_loc(x[1]) in m for m in bad_mf)]
-    if bad_mf:
-        ctx.bad("F-MF", "F-MF:Fragmentation::fragment", ff.span, "; ".join(bad_mf))
-    elif len(good_mf) != 1 or len(cuts) != 1 or len(rec) != 1 or len(pushes) != 2:
-        probs.append("unexpected shape: %d set_is_last_fragment, %d cut, %d recursive calls, %d pushes" % (len(mf), len(cuts), len(rec), len(pushes)))
-        ctx.bad("F-MF", "F-MF:Fragmentation::fragment", ff.span, "; ".join(probs))
-    else:
-        mbb, mt = mf[0]
-        if F.const_int(F.call_args(mt)[1]) != 0:
-            probs.append("set_is_last_fragment is not called with `false` on the first piece")
-        t0 = dep.expr_tree(ff, F.call_args(mt)[0])
-        copy_local = t0[1][2] if t0[0] == "field" and t0[1][0] == "var" else None
-        if copy_local is None or copy_local == hdr_param or dep.tree_str(t0) != "header.flags":
-            probs.append("MF is not set on a copy of the header (it is set on %s)" % dep.tree_str(t0))
-        # the piece pushed after the cut carries that copy
-        split_push = [(bb, t) for bb, t in pushes if fg.dominates(cuts[0][0], bb)]
-        fit_push = [(bb, t) for bb, t in pushes if not fg.dominates(cuts[0][0], bb)]
-        if len(split_push) != 1 or len(fit_push) != 1:
-            probs.append("expected one push for the fitting case and one for the first piece of a split")
+    # ---------------------------------------------------------------- F-MF / F-UNIT on the recursive step
+    SELF, RH, RB = S.params_of(ff)
+    MTU = S.lin(("field", SELF, "mtu"))
+    IHL4 = S.lin(("bin", "Mul", ("field", RH, "ihl"), ("const", 4)))
+    FRAGS = ("field", SELF, "fragments")
+    mf_probs, unit_probs = [], []
+    strict = []
+    branch = {}
+    for fits in (True, False):
+        def f(x, fits=fits):
+            r = fits_atom(x, TL(RH), MTU)
+            if r is None:
+                strict.append(S.term_str(x))
+                return ("bool", fits)
+            if r != "other":
+                return ("bool", fits if r else not fits)
+            return None
+        branch[fits] = S.subst(rec, f)
+    if strict:
+        unit_probs.append("the recursion stops on %s: a remainder of exactly MTU octets is split again" % strict[0])
+
+    def final_self(t):
+        if t[0] != "state":
+            return None
+        for p_, v in t[2]:
+            if p_ == SELF:
+                return v
+        return None
+
+    def pushed(selft):
+        """self{fragments: push!(self.fragments, X)} -> X"""
+        root, fs = S.with_fields(selft)
+        if root != SELF or set(fs) != {"fragments"}:
+            return None
+        u = fs["fragments"]
+        if u[0] == "upd" and u[1].rsplit("::", 1)[-1] == "push" and u[2] == 0 and len(u[3]) == 2 and u[3][0] == FRAGS:
+            return u[3][1]
+        return None
+
+    # the piece that already fits is stored as it is (MF <- OMF)
+    fs_ = final_self(branch[True])
+    x = pushed(fs_) if fs_ is not None else None
+    if x is None:
+        unit_probs.append("a piece that fits is not pushed onto the fragment list (%s)" % S.term_str(branch[True])[:160])
+    elif x != ("pair", RH, RB):
+        root, hf = S.with_fields(x[1]) if x[0] == "pair" else (None, {})
+        if "flags" in hf:
+            mf_probs.append("the more-fragments flag of a piece that already fits is overwritten (%s): a middle fragment that is fragmented again marks its last piece as the end of the original datagram" % S.term_str(hf["flags"])[:120])
         else:
-            pbb, pt = split_push[0]
-            if not fg.dominates(mbb, pbb):
-                probs.append("the first piece is pushed before MF is set on it")
-            po = dep.arg_origins(ff, pbb, 1, through_calls=False)
-            tup = dep.single_def_rvalue(ff, F.op_place(F.call_args(pt)[1])[0])
-            if not tup or tup[1][0] != "agg" or dep.tree_str(dep.expr_tree(ff, tup[1][2][0])) != "header" or dep.expr_tree(ff, tup[1][2][0])[2] != copy_local:
-                probs.append("the first piece pushed does not carry the header copy with MF set")
-            if not tup or not any(a[0] == "call" and a[2] == cuts[0][0] for a in dep.origins(ff, tup[1][2][1], at=K.at_term(ff, pbb))):
-                probs.append("the first piece pushed does not carry the bytes cut off the body")
-        # remainder flags never written
-        for bb, blk in enumerate(ff.blocks):
-            if blk["c"]:
-                continue
-            for st in blk["s"]:
-                if st[0] == "a" and st[1][0] == hdr_param and any(f[1] == "flags" for f in F.place_fields(st[1])):
-                    probs.append("the remainder's flags are written at %s" % st[3])
-                if st[0] == "a" and st[2][0] == "ref" and st[2][1] == "mut" and st[2][2][0] == hdr_param and any(f[1] == "flags" for f in F.place_fields(st[2][2])):
-                    probs.append("the remainder's flags are mutably borrowed at %s" % st[3])
-        # recursion gets the remainder
-        ra = [dep.tree_str(dep.expr_tree(ff, a)) for a in F.call_args(rec[0][1])]
-        if ra[1:] != ["header", "body"] or dep.expr_tree(ff, F.call_args(rec[0][1])[1])[2] != hdr_param:
-            probs.append("the recursion is not applied to the remainder (header, body)")
-        (ctx.bad if probs else ctx.ok)("F-MF", "F-MF:Fragmentation::fragment", ff.span, "; ".join(probs) if probs else
-            "first piece = header copy with MF set + cut bytes; remainder keeps its flags and is fragmented again")
+            unit_probs.append("a piece that fits is stored modified: %s" % S.term_str(x)[:200])
+    # the split
+    fs_ = final_self(branch[False])
+    ok_shape = fs_ is not None and fs_[0] == "upd" and fs_[1] == ff.key and fs_[2] == 0 and len(fs_[3]) == 3
+    if not ok_shape:
+        unit_probs.append("a datagram that does not fit is not split into a first piece plus a recursively fragmented remainder (%s)" % S.term_str(branch[False])[:200])
+    else:
+        self1, h2, b2 = fs_[3]
+        first = pushed(self1)
+        if first is None or first[0] != "pair":
+            unit_probs.append("the first piece is not pushed before the remainder is fragmented")
+        else:
+            h1, b1 = first[1], first[2]
+            r1, f1 = S.with_fields(h1)
+            r2, f2 = S.with_fields(h2)
+            if r1 != RH or r2 != RH:
+                unit_probs.append("the pieces do not carry copies of the original header")
+            # NFB: whatever the code uses must be (mtu - ihl*4)/8
+            nfb = ("divc", (tuple(sorted(MTU[0] + tuple((a_, -c_) for a_, c_ in IHL4[0]), key=repr)), (MTU[1] - IHL4[1]) % S.M32), 8)
+            NFB = (((nfb, 1),), 0)
+            NFB8 = (((nfb, 8),), 0)
+            add = lambda a_, b_, sg=1: S.lin(("bin", "Add" if sg > 0 else "Sub", ("lin", a_), ("lin", b_)))
+            # -- MF
+            fl = f1.get("flags")
+            want_fl = ("upd", None, 0, (("field", RH, "flags"), ("bool", False)))
+            if not (fl and fl[0] == "upd" and fl[1].rsplit("::", 1)[-1] == "set_is_last_fragment" and fl[3] == want_fl[3]):
+                mf_probs.append("the first piece does not get MF set on its header copy (flags = %s)" % (S.term_str(fl) if fl else "unchanged"))
+            if "flags" in f2:
+                mf_probs.append("the more-fragments flag of the remainder is overwritten (%s); RFC 791: MF <- OMF" % S.term_str(f2["flags"])[:120])
+            # -- units
+            def cut_of(t_, kind):
+                return t_[0] == kind and t_[1].rsplit("::", 1)[-1] == "cut" and ((kind == "call" and t_[2][0] == RB and S.lin(t_[2][1]) == NFB8) or
+                                                                               (kind == "upd" and t_[2] == 0 and t_[3][0] == RB and S.lin(t_[3][1]) == NFB8))
+            if not cut_of(b1, "call"):
+                unit_probs.append("the first piece's payload is %s, expected the first NFB*8 = 8*((mtu - ihl*4)/8) octets of the body" % S.term_str(b1)[:160])
+            if not cut_of(b2, "upd"):
+                unit_probs.append("the remainder's payload is %s, expected the body after cutting NFB*8 octets" % S.term_str(b2)[:160])
+            exp1 = {"total_length": _lin_add(IHL4, NFB8)}
+            exp2 = {"total_length": _lin_add(TL(RH), NFB8, -1), "fragment_offset": _lin_add(S.lin(("field", RH, "fragment_offset")), NFB)}
+            for who, got, exp in (("first piece", f1, exp1), ("remainder", f2, exp2)):
+                for fld, e in exp.items():
+                    g_ = got.get(fld)
+                    if g_ is None or S.lin(g_) != e:
+                        unit_probs.append("%s: %s = %s, RFC 791 prescribes %s" % (who, fld, S.term_str(g_) if g_ else "unchanged", S.lin_str(e)))
+                extra = set(got) - set(exp) - {"flags"}
+                if extra:
+                    unit_probs.append("%s: header fields %s are rewritten (all other fields must be preserved)" % (who, sorted(extra)))
+    (ctx.bad if mf_probs else ctx.ok)("F-MF", "F-MF:Fragmentation::fragment", ff.span, "; ".join(mf_probs) if mf_probs else
+        "first piece = header copy with MF set; the remainder and a piece that already fits keep the MF they arrived with")
     # no other writer of MF in the module
     others = []
     for b in prog.bodies.values():
-        if b.key.startswith("elvis_core::protocols::ipv4::fragmentation") and b.key != ff.key:
+        if b.key.startswith("elvis_core::protocols::ipv4::fragmentation") and b.key != ff.key and "::tests" not in b.key:
             others += [(b, bb) for bb, t in K.calls(b) if (F.callee(t) or {}).get("pretty", "").endswith("ControlFlags::set_is_last_fragment")]
     (ctx.bad if others else ctx.ok)("F-MF", "F-MF:other-writers", ff.span,
         "MF is also written in %s" % others[0][0].pretty if others else "no other writer of MF in fragmentation.rs")
-
-    # F-UNIT
-    probs = []
-    NFB = "((self.mtu - (4 * header.ihl)) / 8)"   # canonical operand order (commutative ops sorted)
-    fb = None
-    for l, (tix, name, _u) in enumerate(ff.locals):
-        if name == "fragment_blocks":
-            fb = l
-    if fb is None:
-        probs.append("local fragment_blocks not found")
-    else:
-        r = dep.single_def_rvalue(ff, fb)
-        e = dep.tree_str(dep.expr_tree(ff, ["cp", [fb, []]], depth=20)) if r is None else dep.tree_str(_rv_tree(ff, r[1]))
-        if e != NFB:
-            probs.append("NFB is %s, RFC 791 prescribes (MTU - IHL*4)/8" % e)
-        if cuts:
-            ce = dep.tree_str(dep.expr_tree(ff, F.call_args(cuts[0][1])[1], depth=20))
-            if ce != "(8 * fragment_blocks)":
-                probs.append("the first piece is cut at %s bytes, expected NFB*8" % ce)
-            if dep.tree_str(dep.expr_tree(ff, F.call_args(cuts[0][1])[0])) != "body":
-                probs.append("the cut is not taken from the datagram body")
-        want = {"first.total_length": "((4 * header.ihl) + (8 * fragment_blocks))",
-                "rest.total_length": "(header.total_length - (((oihl - header.ihl) * 4) + (8 * fragment_blocks)))",
-                "rest.fragment_offset": "(fragment_blocks + header.fragment_offset)"}
-        got = {}
-        for bb, blk in enumerate(ff.blocks):
-            if blk["c"]:
-                continue
-            for st in blk["s"]:
-                if st[0] == "a" and F.place_fields(st[1]) and F.place_fields(st[1])[-1][0].endswith("Ipv4Header") and st[2][0] == "use":
-                    fld = F.place_fields(st[1])[-1][1]
-                    who = "rest" if st[1][0] == hdr_param else "first"
-                    got["%s.%s" % (who, fld)] = dep.tree_str(dep.expr_tree(ff, st[2][1], depth=20))
-        for k, v in want.items():
-            if got.get(k) != v:
-                probs.append("%s = %s, expected %s" % (k, got.get(k), v))
-        extra = set(got) - set(want)
-        if extra:
-            probs.append("unexpected header fields rewritten: %s" % sorted(extra))
-    (ctx.bad if probs else ctx.ok)("F-UNIT", "F-UNIT:Fragmentation::fragment", ff.span, "; ".join(probs) if probs else
-        "NFB = (mtu - IHL*4)/8; cut NFB*8; first.TL = IHL*4 + NFB*8; rest.TL -= NFB*8 + (OIHL-IHL)*4; rest.FO += NFB")
+    (ctx.bad if unit_probs else ctx.ok)("F-UNIT", "F-UNIT:Fragmentation::fragment", ff.span, "; ".join(unit_probs) if unit_probs else
+        "NFB = (mtu - IHL*4)/8; first piece = (header{MF, TL = IHL*4 + NFB*8}, body[..NFB*8]); remainder = (header{TL - NFB*8, FO + NFB}, rest), fragmented again; a fitting piece is stored unchanged")
 
 
-def _rv_tree(body, rv):
-    if rv[0] == "use":
-        return dep.expr_tree(body, rv[1], 20)
-    if rv[0] == "bin":
-        return ("bin", rv[1].replace("WithOverflow", ""), dep.expr_tree(body, rv[2], 20), dep.expr_tree(body, rv[3], 20))
-    if rv[0] == "cast":
-        return ("cast", dep.expr_tree(body, rv[2], 20))
-    return ("?",)
+def _lin_add(a, b, sign=1):
+    co = dict(a[0])
+    for t_, c_ in b[0]:
+        co[t_] = co.get(t_, 0) + sign * c_
+    return (tuple(sorted(((t_, c_) for t_, c_ in co.items() if c_), key=repr)), (a[1] + sign * b[1]) % (1 << 32))
